@@ -280,9 +280,7 @@ class Cleanup:
                 result.append("pass\n")  # replace the docstring by a pass statement
             else:
                 result.append(string)
-            if (previous_token, token) == (NEWLINE, NL):
-                previous_token = NEWLINE
-            else:
+            if not (token in (NL, COMMENT) and previous_token in (INDENT, DEDENT, NEWLINE)):
                 previous_token = token
             (previous_end_row, previous_end_col) = (end_row, end_col)
         text = "".join(result).strip()
